@@ -11,14 +11,14 @@ def sh(*a, **k):
     return subprocess.run(a, capture_output=True, text=True, **k)
 
 
-def run_quick(prop, src, budget="3600", seed=None):
+def run_quick(prop, src, budget="3600", seed=None, tier="quick"):
     """-> (returncode, non-KNOWN output lines, replay paths written by this run)"""
     rd = os.path.join(VERIF, "replays", prop)
     shutil.rmtree(rd, ignore_errors=True)
     env = dict(os.environ, VERIF_REPO_SRC=src)
     if seed is not None:
         env["VERIF_SEED"] = str(seed)
-    r = sh(PY, VERIF + "/vp_check.py", prop, "--tier", "quick", "--no-evidence", "--budget", budget, env=env, cwd=VERIF)
+    r = sh(PY, VERIF + "/vp_check.py", prop, "--tier", tier, "--no-evidence", "--budget", budget, env=env, cwd=VERIF)
     lines = [ln for ln in (r.stdout + r.stderr).splitlines() if not ln.startswith("KNOWN")]
     return r.returncode, lines, sorted(glob.glob(rd + "/*.json"))
 
